@@ -595,9 +595,27 @@ func genDate(r *rand.Rand, o GOpts, feat map[string]bool) ([3]int, string) {
 }
 
 type lineWriter struct {
-	sb   strings.Builder
-	nl   string
-	line int
+	sb    strings.Builder
+	nl    string
+	line  int
+	accts []string // accounts posted to so far in this journal (see "account.reuse")
+}
+
+// reuseAccount: real journals post to the same few accounts again and again, as ordinary and as
+// virtual postings; half of the time the longest account so far is taken, so that the widest
+// line of a journal is regularly a bracketed repetition of a name seen before (seed r5-C05
+// measured every account name once and missed the two columns of the brackets).
+func (w *lineWriter) reuseAccount(r *rand.Rand) string {
+	if r.IntN(2) == 0 {
+		best := w.accts[0]
+		for _, a := range w.accts {
+			if len([]rune(a)) > len([]rune(best)) {
+				best = a
+			}
+		}
+		return best
+	}
+	return w.accts[r.IntN(len(w.accts))]
 }
 
 func (w *lineWriter) put(s string) { w.sb.WriteString(s); w.sb.WriteString(w.nl); w.line++ }
@@ -662,7 +680,12 @@ func genTransaction(r *rand.Rand, w *lineWriter, o GOpts, feat map[string]bool) 
 			p.Status = 1 + r.IntN(2)
 			ln.WriteString([]string{"", "!", "*"}[p.Status] + " ")
 		}
-		p.Account = genAccount(r, o, feat)
+		if len(w.accts) > 0 && use("account.reuse", 4) {
+			p.Account = w.reuseAccount(r)
+		} else {
+			p.Account = genAccount(r, o, feat)
+			w.accts = append(w.accts, p.Account)
+		}
 		switch {
 		case use("virtual.balanced", 8):
 			p.Virt = 1
